@@ -209,13 +209,12 @@ def check(run, cfg):
     # ---- generate
     reports, obligations = [], []
     for n in cfg['contracts']:
-        if prop not in CONTRACTS[n].props and not cfg.get('borrow'):
-            pass
-        rep = verify.generate(run.program, n)
-        reports.append(rep)
+        run.program.function(n)        # load sources (and C translation units) before forking
+    reports, vac_obs = verify.generate_parallel(run.program, cfg['contracts'])
+    for rep in reports:
         obligations += rep.obligations
         if rep.vacuous:
-            raise CannotBind('precondition of %s is unsatisfiable in case(s) %s (vacuous contract)' % (n, rep.vacuous))
+            raise CannotBind('precondition of %s is unsatisfiable in case(s) %s (vacuous contract)' % (rep.name, rep.vacuous))
     for ln in cfg.get('lemmas', []):
         obligations += LEMMAS[ln].obligations()
     extra = cfg.get('extra_obligations')
@@ -228,7 +227,7 @@ def check(run, cfg):
     results = solve.discharge(obligations, timeout_ms=10000 if quick else 60000, both=not quick)
     # ---- consistency of the axioms (vacuity guard): `false` must not be provable
     from dvc import vacuity
-    vac = vacuity.check(run, cfg, reports)
+    vac = vacuity.check(run, cfg, reports, vac_obs)
     run.evidence_extra['vacuity'] = vac
     all_proved = all(r['status'] == 'proved' for r in results)
     if vac.get('inconsistent') and all_proved:
